@@ -52,7 +52,7 @@ def cmd_import(a):
             continue
         meta = json.load(open(os.path.join(d, "meta.json")))
         prop = meta.get("property", "C??").upper()
-        name = "%s-%s" % (prop, n)
+        name = "%s-%s%s" % (prop, (a.tag + "-") if a.tag else "", n)
         wt = worktree()
         try:
             rc_clean, out_clean = demo(wt, os.path.join(d, "demo.py"))
@@ -140,6 +140,7 @@ def main():
     i = sub.add_parser("import")
     i.add_argument("src")
     i.add_argument("--tests", action="store_true")
+    i.add_argument("--tag", default="")
     r = sub.add_parser("run")
     r.add_argument("ids", nargs="*")
     r.add_argument("--runs", type=int)
